@@ -349,3 +349,172 @@ Proof.
     + unfold mux_tag_header, u8. repeat constructor; unfold wf_byte; lia.
     + unfold mux_tag_trailer, be4. repeat constructor; unfold wf_byte; lia.
 Qed.
+
+(* ---------- the segmented readers used by the harness ---------- *)
+Definition all_data (s : stream) : Prop := forall e, ~ In (Fault e) s.
+
+Lemma all_data_flat s : all_data s -> snd (flat s) = eEOF.
+Proof.
+  induction s as [|sg s IH]; intros H; [reflexivity|].
+  destruct sg as [b|e]; [|exfalso; apply (H e); now left].
+  cbn [flat]. destruct (flat s) as [d t] eqn:E. cbn [snd] in *. apply IH.
+  intros e He. apply (H e). now right.
+Qed.
+
+Lemma all_data_rev s : all_data s -> all_data (rev s).
+Proof. intros H e He. apply in_rev in He. now apply (H e). Qed.
+
+Lemma all_data_cons b s : all_data s -> all_data (Data b :: s).
+Proof. intros H e [He|He]; [discriminate|now apply (H e)]. Qed.
+
+Lemma data_snoc s b : all_data s -> fst (flat (s ++ [Data b])) = fst (flat s) ++ b.
+Proof. intros H. rewrite flat_app_data by exact H. cbn. now rewrite app_nil_r. Qed.
+
+Lemma rev_cons_ {A} (x : A) l : rev (x :: l) = rev l ++ [x].
+Proof. reflexivity. Qed.
+
+Lemma split_go_flat b : forall k rest all cur acc, all_data acc ->
+  flat (split_go b k rest all cur acc) = (fst (flat (rev acc)) ++ rev cur ++ b, eEOF).
+Proof.
+  induction b as [|x t IH]; intros k rest all cur acc Ha.
+  - cbn [split_go]. rewrite frev_rev, app_nil_r. destruct cur as [|c cur].
+    + cbn [rev]. rewrite app_nil_r. rewrite (surjective_pairing (flat (rev acc))).
+      now rewrite (all_data_flat _ (all_data_rev _ Ha)).
+    + rewrite frev_rev. rewrite (rev_cons_ (Data (rev (c :: cur))) acc).
+      rewrite (surjective_pairing (flat _)). rewrite data_snoc by now apply all_data_rev.
+      rewrite all_data_flat; [reflexivity|].
+      intros e He. apply in_app_or in He. destruct He as [He|[He|[]]]; [|discriminate].
+      now apply (all_data_rev _ Ha e).
+  - cbn [split_go]. destruct (k <=? 1).
+    + destruct (next_size rest all) as [k' rest'].
+      rewrite IH by now apply all_data_cons.
+      rewrite frev_rev. rewrite (rev_cons_ (Data (rev (x :: cur))) acc).
+      rewrite data_snoc by now apply all_data_rev.
+      cbn [rev app]. now rewrite <- !app_assoc.
+    + rewrite IH by exact Ha. cbn [rev]. now rewrite <- !app_assoc.
+Qed.
+
+Lemma split_segs_flat sizes b : flat (split_segs sizes b) = (b, eEOF) /\ all_data (split_segs sizes b).
+Proof.
+  assert (Hf : flat (split_segs sizes b) = (b, eEOF)).
+  { unfold split_segs. destruct sizes as [|k0 r].
+    - destruct b; cbn; now rewrite ?app_nil_r.
+    - destruct (next_size (k0 :: r) (k0 :: r)) as [k rest].
+      rewrite split_go_flat by (intros e []). reflexivity. }
+  split; [exact Hf|].
+  (* a Fault segment would show in [flat]: prove all_data through the construction instead *)
+  unfold split_segs. destruct sizes as [|k0 r].
+  - destruct b; intros e He; cbn in He; intuition discriminate.
+  - destruct (next_size (k0 :: r) (k0 :: r)) as [k rest].
+    assert (G : forall b k rest all cur acc, all_data acc -> all_data (split_go b k rest all cur acc)).
+    { clear. induction b as [|x t IH]; intros k rest all cur acc Ha.
+      - cbn [split_go]. rewrite frev_rev. apply all_data_rev. destruct cur; [exact Ha|now apply all_data_cons].
+      - cbn [split_go]. destruct (k <=? 1).
+        + destruct (next_size rest all). apply IH. now apply all_data_cons.
+        + now apply IH. }
+    apply G. intros e [].
+Qed.
+
+(* the reader the harness builds from (wire, segment sizes, no cut, fault): it delivers
+   exactly [wire], in whatever segment sizes, and ends with EOF or the injected fault *)
+Theorem mk_stream_flat wire sizes cut fault : (cut < 0)%Z ->
+  flat (mk_stream wire sizes cut fault) =
+  (wire, if (fault <? 0)%Z then eEOF else 10 + Z.to_N fault).
+Proof.
+  intros Hc. unfold mk_stream. apply Z.ltb_lt in Hc. rewrite Hc.
+  destruct (split_segs_flat sizes wire) as [Hf Ha].
+  rewrite flat_app_data by exact Ha. rewrite Hf. cbn [fst].
+  destruct (fault <? 0)%Z; cbn; now rewrite app_nil_r.
+Qed.
+
+Theorem demux_mux_harness hv ha tags sizes fault :
+  Forall wf_tag tags ->
+  demux (S (length tags)) (mk_stream (mux hv ha tags) sizes (-1) fault) =
+  Ok ((1, hv, ha), tags, (0, if (fault <? 0)%Z then eEOF else 10 + Z.to_N fault)).
+Proof.
+  intros Hwf. apply demux_mux; [exact Hwf|lia|]. now apply mk_stream_flat.
+Qed.
+
+(* ---------- the size field holds the body length modulo 2^24 (why the bound is 2^24) ---------- *)
+Lemma parse_mux_tag_header_any t : t_type t < 256 -> t_ts t < 4294967296 -> lenN (t_body t) < 4294967296 ->
+  parse_tag_header (mux_tag_header t) = Ok (t_type t, lenN (t_body t) mod 16777216, t_ts t).
+Proof.
+  intros Hty Hts Hsz. unfold parse_tag_header, mux_tag_header.
+  cbn [idx nth_error bind].
+  replace (u32 (lenN (t_body t))) with (lenN (t_body t)) by (unfold u32; lia).
+  rewrite ube4_be4 by assumption.
+  replace (u8 (t_type t)) with (t_type t) by (unfold u8; lia).
+  do 2 f_equal. f_equal. unfold ube3, u8. lia.
+Qed.
+
+(* ---------- truncated files: the tags read are a prefix of the tags written ---------- *)
+Lemma firstn_app_ge {A} c (a r : list A) : (length a <= c)%nat ->
+  firstn c (a ++ r) = a ++ firstn (c - length a) r.
+Proof. intros H. rewrite firstn_app. now rewrite firstn_all2 by exact H. Qed.
+
+Lemma firstn_app_lt {A} c (a r : list A) : (c <= length a)%nat -> firstn c (a ++ r) = firstn c a.
+Proof.
+  intros H. rewrite firstn_app. replace (c - length a)%nat with 0%nat by lia.
+  cbn [firstn]. apply app_nil_r.
+Qed.
+
+Lemma length_tag_bytes t : length (tag_bytes t) = (15 + length (t_body t))%nat.
+Proof. unfold tag_bytes. rewrite !app_length. cbn. lia. Qed.
+
+Lemma read_tags_truncated tags : forall c fuel s acc tm,
+  Forall wf_tag tags -> (length tags < fuel)%nat ->
+  flat s = (firstn c (concat (map tag_bytes tags)), tm) ->
+  exists k w, read_tags fuel s acc = Ok (rev acc ++ firstn k tags, (w, tm)).
+Proof.
+  induction tags as [|t ts IH]; intros c fuel s acc tm Hwf Hfuel Hf.
+  - destruct fuel as [|f]; [lia|]. cbn [map concat] in Hf. rewrite firstn_nil in Hf.
+    exists 0%nat, 0. cbn [read_tags]. unfold read_tag_header.
+    rewrite (read_via_short parse_tag_header s 11 [] tm Hf) by (rewrite lenN_nil; lia).
+    now rewrite frev_rev, app_nil_r.
+  - destruct fuel as [|f]; [lia|]. cbn [length] in Hfuel.
+    inversion Hwf as [|? ? Hwt Hwts]; subst. cbn [map concat] in Hf.
+    destruct (Nat.le_gt_cases (length (tag_bytes t)) c) as [Hge|Hlt].
+    + (* the whole tag is there *)
+      rewrite firstn_app_ge in Hf by exact Hge.
+      destruct (read_one_tag t s _ tm Hwt Hf) as (s1 & H1 & s2 & H2 & F2).
+      destruct (IH _ f s2 (t :: acc) tm Hwts ltac:(lia) F2) as (k & w & Hr).
+      exists (S k), w. cbn [read_tags]. rewrite H1, H2.
+      destruct t as [ty tss b]. cbn [t_type t_ts t_body] in *. rewrite Hr.
+      cbn [rev firstn]. now rewrite <- app_assoc.
+    + rewrite firstn_app_lt in Hf by lia.
+      destruct (Nat.le_gt_cases 11 c) as [H11|H11].
+      * (* the tag header is there, the body or its trailer is cut *)
+        unfold tag_bytes in Hf. rewrite (firstn_app_ge c) in Hf by (cbn; lia).
+        destruct (read_via_ok parse_tag_header s 11 _ _ tm _ Hf (lenN_mux_tag_header t)
+                    (parse_mux_tag_header t Hwt)) as (s1 & H1 & F1).
+        fold read_tag_header in H1.
+        exists 0%nat, 1. cbn [read_tags]. rewrite H1. unfold read_tag.
+        rewrite (read_via_short strip_pts s1 _ _ tm F1).
+        -- now rewrite frev_rev, app_nil_r.
+        -- destruct Hwt as (_ & _ & Hsz). rewrite length_tag_bytes in Hlt.
+           rewrite lenN_length, firstn_length. rewrite lenN_length in Hsz.
+           change (length (mux_tag_header t)) with 11%nat. unfold u32. rewrite lenN_length. lia.
+      * (* not even the tag header *)
+        exists 0%nat, 0. cbn [read_tags]. unfold read_tag_header.
+        rewrite (read_via_short parse_tag_header s 11 _ tm Hf).
+        -- now rewrite frev_rev, app_nil_r.
+        -- rewrite lenN_length, firstn_length. lia.
+Qed.
+
+Theorem demux_truncated hv ha tags c fuel s tm :
+  Forall wf_tag tags -> (length tags < fuel)%nat ->
+  flat s = (firstn c (mux hv ha tags), tm) ->
+  ((c < 13)%nat -> demux fuel s = Err tm) /\
+  ((13 <= c)%nat -> exists k w, demux fuel s = Ok ((1, hv, ha), firstn k tags, (w, tm))).
+Proof.
+  intros Hwf Hfuel Hf. rewrite mux_concat in Hf. unfold demux. split; intros Hc.
+  - rewrite firstn_app_lt in Hf by (destruct hv, ha; cbn; lia).
+    unfold read_header. rewrite (read_via_short parse_header s 13 _ tm Hf); [reflexivity|].
+    rewrite lenN_length, firstn_length. lia.
+  - rewrite firstn_app_ge in Hf by (destruct hv, ha; cbn; lia).
+    destruct (read_via_ok parse_header s 13 _ _ tm _ Hf eq_refl (parse_mux_header hv ha))
+      as (s1 & H1 & F1).
+    fold read_header in H1. rewrite H1. cbn [bind].
+    destruct (read_tags_truncated tags _ fuel s1 [] tm Hwf Hfuel F1) as (k & w & Hr).
+    exists k, w. rewrite Hr. reflexivity.
+Qed.
